@@ -1,1 +1,43 @@
-FINDERS = {}
+"""Bounded replay finders: run the REAL compiled code against the executable form of a unit's contract.
+Never the deciding step: they attach a concrete failing input to a violation, and in `thorough` cross-check that
+the contract proved about the extracted text also holds at run time on the compiled original."""
+import os
+import re
+import subprocess
+
+import unit as U
+
+
+def build_graph_finder(scratch):
+    src = open(os.path.join(U.VERIF, "units", "graph", "finder.rs"), encoding="utf-8").read()
+    src = src.replace("@GRAPH_RS@", os.path.join(U.REPO, "src", "core", "graph.rs"))
+    p = os.path.join(scratch, "graph_finder.rs")
+    with open(p, "w", encoding="utf-8") as fh:
+        fh.write(src)
+    exe = os.path.join(scratch, "graph_finder")
+    r = subprocess.run(["rustc", "--edition", "2021", "-O", "-A", "warnings", "-o", exe, p], capture_output=True, text=True, timeout=300)
+    if r.returncode != 0:
+        raise RuntimeError("rustc failed on the graph finder: " + r.stderr[-400:])
+    return exe
+
+
+def run_graph_finder(exe, args, timeout=600):
+    r = subprocess.run([exe] + args, capture_output=True, text=True, timeout=timeout)
+    fails = re.findall(r"^FAIL case=(\S+) why=(.*)$", r.stdout, re.M)
+    m = re.search(r"checked=(\d+) nontrivial=(\d+) bad=(\d+)", r.stdout)
+    return {"args": args, "checked": int(m.group(1)) if m else 0, "nontrivial": int(m.group(2)) if m else 0, "bad": int(m.group(3)) if m else -1,
+            "failures": [{"case": c, "why": w} for c, w in fails], "rc": r.returncode}
+
+
+def graph_finder(scratch, failure):
+    exe = build_graph_finder(scratch)
+    res = run_graph_finder(exe, ["all", "4"])
+    out = {"finder": "units/graph/finder.rs: every digraph on <= 4 nodes x every root list of size <= 2, real core/graph.rs compiled with rustc", "result": res}
+    if res["failures"]:
+        c = res["failures"][0]
+        out["input"] = {"case": c["case"], "format": "<n>;<adjacency rows separated by |>;<roots>", "why": c["why"],
+                        "rerun": "./check --replay-graph-case '%s'" % c["case"]}
+    return out
+
+
+FINDERS = {"graph": graph_finder}
